@@ -1746,6 +1746,20 @@ def replay(ctx, data):
         return 1
     if inp.get("object"):
         return replay_object(ctx, inp)
+    if inp.get("nsamples"):
+        cfg = inp["cfg"]
+        set_layout(cfg)
+        base = Path(common.tmpdir(prefix="C04_replay_"))
+        try:
+            exp = build_reference(base, cfg)
+            res = probe_nsamples(base, cfg, exp)
+        finally:
+            shutil.rmtree(base, ignore_errors=True)
+        print("init_params(nsamples=%d): histories after which the original is gone:" % inp["nsamples"])
+        for b in res["lost"]:
+            print("  ", b)
+        print("property clause 'after any history with nsamples < ns the original still exists' fails:", bool(res["lost"]))
+        return 1 if res["lost"] else 0
     cfg, runs = inp["cfg"], inp["runs"]
     set_layout(cfg, runs[0].get("extra", "") if runs else "")
     base = Path(common.tmpdir(prefix="C04_replay_"))
